@@ -6,6 +6,11 @@ def main():
     from . import core, defaults
     V = core.Verdicts("C16")
     extra = defaults.run(V)              # documented defaults reach the tables (PPDefaults / Trace_Defaults)
+    # standard-type library as a state machine: creation from a type = creation from its parameters, refusals atomic, rows as requested
+    from . import stdtype
+    extra.update(stdtype.part(V, "C16", core.tier(), core.seed(),
+                              ("refused_valid", "accepted_invalid", "refusal_not_atomic", "row_differs_from_type", "type_differs_from_parameters",
+                               "row_not_as_requested", "retyped_row_differs", "unknown_event")))
     rc1 = V.finish()
     rc2 = c17.run("C16", extra_cov=extra, prior=len(V.violations))
     return 1 if (rc1 or rc2) else 0
